@@ -160,6 +160,136 @@ fn cross_process(state: usize, out: &mut CaseOut) {
     }
 }
 
+/// I/O hook that parks the committing thread just before its n-th log append.
+struct PauseAtLogAppend {
+    target: usize,
+    seen: std::sync::atomic::AtomicUsize,
+    state: std::sync::Mutex<(bool, bool)>, // (parked, released)
+    cv: std::sync::Condvar,
+}
+
+impl ndb_core::verif::Hooks for PauseAtLogAppend {
+    fn io(&self, ev: &ndb_core::verif::IoEvent<'_>) -> std::io::Result<()> {
+        if ev.site.starts_with("wal.append") {
+            let n = self.seen.fetch_add(1, std::sync::atomic::Ordering::SeqCst);
+            if n == self.target {
+                let mut st = self.state.lock().unwrap();
+                st.0 = true;
+                self.cv.notify_all();
+                let deadline = std::time::Instant::now() + Duration::from_secs(20);
+                while !st.1 && std::time::Instant::now() < deadline {
+                    let (g, _) = self.cv.wait_timeout(st, Duration::from_millis(200)).unwrap();
+                    st = g;
+                }
+            }
+        }
+        Ok(())
+    }
+}
+
+fn file_bytes(base: &Path) -> Vec<(String, Vec<u8>)> {
+    ["ndb", "wal"].iter().map(|e| (e.to_string(), std::fs::read(base.with_extension(e)).unwrap_or_default())).collect()
+}
+
+/// The first handle is in the middle of a commit (some of its log records are appended, CommitTx
+/// is not) when a second open is attempted. The attempt must be refused (or wait) and — being
+/// refused — must not have written to the files; the first handle's commit, once acknowledged,
+/// must be there after everything is closed and the database is opened again.
+fn second_open_during_commit(target: usize, out: &mut CaseOut) {
+    let dir = ScratchDir::new("c10m");
+    let base = dir.db_base();
+    let Ok(first) = Db::open(&base) else {
+        out.inconclusive("first-open-failed");
+        return;
+    };
+    let _ = marker_tx(&first, 1);
+    let first = std::sync::Arc::new(first);
+    let hook = std::sync::Arc::new(PauseAtLogAppend { target, seen: Default::default(), state: std::sync::Mutex::new((false, false)), cv: std::sync::Condvar::new() });
+    ndb_core::verif::install_global(hook.clone() as std::sync::Arc<dyn ndb_core::verif::Hooks>);
+    let f2 = first.clone();
+    let writer = std::thread::spawn(move || marker_tx(&f2, 2));
+    // wait until the writer is parked inside its commit
+    let parked = {
+        let mut st = hook.state.lock().unwrap();
+        let deadline = std::time::Instant::now() + Duration::from_secs(10);
+        while !st.0 && std::time::Instant::now() < deadline {
+            let (g, _) = hook.cv.wait_timeout(st, Duration::from_millis(100)).unwrap();
+            st = g;
+        }
+        st.0
+    };
+    if !parked {
+        hook.state.lock().unwrap().1 = true;
+        hook.cv.notify_all();
+        let _ = writer.join();
+        ndb_core::verif::uninstall_global();
+        out.inconclusive("writer-did-not-reach-the-pause-point");
+        return;
+    }
+    let before = file_bytes(&base);
+    // the second open runs on this thread; the global hook would also see its I/O, which is fine
+    // (only the writer's n-th append parks)
+    let second = Db::open(&base);
+    let refused = second.is_err();
+    drop(second);
+    let after = file_bytes(&base);
+    hook.state.lock().unwrap().1 = true;
+    hook.cv.notify_all();
+    let acked = matches!(writer.join(), Ok(Ok(())));
+    ndb_core::verif::uninstall_global();
+    out.evaluations += 1;
+    out.count("second_open_during_commit", 1);
+    out.cell(format!("during-commit:append#{target}:{}", if refused { "refused" } else { "opened" }));
+    if !refused {
+        out.violations.push(Violation {
+            signature: "C10|second-handle-opened-while-first-open|same-process".into(),
+            summary: "a second Db::open succeeded while the first handle was in the middle of a commit".into(),
+            detail: json!({"paused_before_log_append": target}),
+            replay: json!({"engine":"concmon","property":"C10","kind":"during-commit","append":target}),
+        });
+        return;
+    }
+    let changed: Vec<String> = before.iter().zip(&after).filter(|(b, a)| b.1 != a.1).map(|(b, a)| format!("{}: {} -> {} bytes", b.0, b.1.len(), a.1.len())).collect();
+    if !changed.is_empty() {
+        out.violations.push(Violation {
+            signature: "C10|refused-second-open-wrote-to-the-database-files|during-commit".into(),
+            summary: format!("a second open that was refused changed the files of the open database: {}", changed.join(", ")),
+            detail: json!({"paused_before_log_append": target, "changed": changed}),
+            replay: json!({"engine":"concmon","property":"C10","kind":"during-commit","append":target}),
+        });
+    }
+    // whatever the attempt did: an acknowledged commit of the first handle must survive
+    let first = match std::sync::Arc::try_unwrap(first) {
+        Ok(f) => f,
+        Err(_) => {
+            out.inconclusive("first-handle-still-shared");
+            return;
+        }
+    };
+    let live = super::db_dump(&first);
+    drop(first);
+    match Db::open(&base) {
+        Ok(db) => {
+            let again = super::db_dump(&db);
+            if acked && live != again {
+                let d = crate::common::model::diff_facts(&live, &again, usize::MAX);
+                out.violations.push(Violation {
+                    signature: format!("C10|acknowledged-commit-lost-after-refused-second-open:{}|during-commit", crate::common::diff_signature(&d)),
+                    summary: format!("after a refused second open during a commit, the first handle's acknowledged transaction is not (fully) there after reopen ({} facts differ)", d.len()),
+                    detail: json!({"paused_before_log_append": target, "diff": crate::common::facts_diff_json(&d[..d.len().min(10)], "first-handle-before-close", "after-reopen")}),
+                    replay: json!({"engine":"concmon","property":"C10","kind":"during-commit","append":target}),
+                });
+            }
+        }
+        Err(e) => out.violations.push(Violation {
+            signature: "C10|reopen-failed-after-refused-second-open|during-commit".into(),
+            summary: format!("the database does not open after both handles are gone: {e}"),
+            detail: json!({"paused_before_log_append": target}),
+            replay: json!({"engine":"concmon","property":"C10","kind":"during-commit","append":target}),
+        }),
+    }
+}
+
 /// After the first handle is gone the database must open again (a lock must not outlive its owner).
 fn reopen_after_close(out: &mut CaseOut) {
     let dir = ScratchDir::new("c10r");
@@ -204,6 +334,10 @@ pub fn main(args: &Args) -> Report {
             cross_process(s, &mut out);
         }
         reopen_after_close(&mut out);
+    }
+    // second open attempted while the first handle is between BeginTx and CommitTx of a commit
+    for target in if args.thorough() { vec![1usize, 2, 3, 4, 5, 6, 8, 10, 13, 16, 20] } else { vec![1usize, 3, 6, 10] } {
+        second_open_during_commit(target, &mut out);
     }
     out.samples.push(json!({"case": "first=Db::open(p); begin_write(); second thread: Db::open(p) -> must be Err or block"}));
     let mut seen = std::collections::BTreeMap::<String, usize>::new();
